@@ -7,6 +7,7 @@ import (
 	"math/big"
 
 	"github.com/xelaj/mtproto/internal/encoding/tl"
+	mtmath "github.com/xelaj/mtproto/internal/math"
 	"github.com/xelaj/mtproto/internal/mtproto/objects"
 	"github.com/xelaj/mtproto/internal/verifrt"
 )
@@ -114,4 +115,35 @@ func H_C19_exponent() {
 		onlyCrypto("auth key", m.authKey, true)
 	})
 	verifrt.Assert(!crashed, "process-survives")
+}
+
+// H_C19_source_failure: the same secrets when the OS random source may fail (error, no bytes) at any draw: either
+// the draw is refused (panic / error - no secret is produced) or the secret still depends on the OS source only;
+// a fallback to another generator is a violation.  which 0: nonce, 1: new_nonce, 2: DH exponent (through g_b).
+func H_C19_source_failure(which int) {
+	verifrt.RandMayFail()
+	var secret []byte
+	pn := verifrt.Catch(func() {
+		switch which {
+		case 0:
+			secret = fixed(tl.RandomInt128().Int, 16)
+		case 1:
+			secret = fixed(tl.RandomInt256().Int, 32)
+		case 2:
+			dhPrime := verifrt.Bytes(256)
+			verifrt.Assume(dhPrime[0] >= 0x80)
+			ga := verifrt.Bytes(256)
+			_, gb, _ := mtmath.MakeGAB(3, new(big.Int).SetBytes(ga), new(big.Int).SetBytes(dhPrime))
+			secret = fixed(gb, 256)
+		}
+	})
+	if pn {
+		verifrt.Cover("refused")
+		verifrt.Assert(true, "failing-source-is-refused-or-not-used")
+		return
+	}
+	verifrt.Cover("delivered")
+	src := verifrt.Sources(secret)
+	verifrt.Note("secret depends on: [" + src + "]")
+	verifrt.Assert(src == "crypto" || src == "crypto,input", "failing-source-never-replaced-by-another-generator")
 }
